@@ -708,6 +708,19 @@ class Interp(ObjectMixin, LoopMixin):
                 k = self.concrete_int(key)
                 rec.items[k] = v
                 return
+            if rec.kind == "base" and rec.elem_type is not None and rec.elem_type[0] in ("int", "bool", "str", "float", "enum", "val") and not rec.opt_elems:
+                # xs[k] = v on a symbolic list of scalars: a store into the element array (IndexError out of range)
+                k = self.ops.as_int(key)
+                n = self.ops.list_len(obj)
+                if self.st.branch(z3.Or(k >= n, k < -n)):
+                    self.raise_builtin("IndexError", "list assignment index out of range")
+                idx = z3.simplify(z3.If(k >= 0, k, n + k))
+                srt = self.typer.sort_of(rec.elem_type)
+                arr = self._elem_array(obj.lid, "$v", srt)
+                val = self.ops.to_val(v) if rec.elem_type[0] == "val" else (self.ops.as_int(v) if rec.elem_type[0] == "int" else v.t)
+                rec.fields["$v"] = self._store(arr, tuple(obj.idx) + (idx,), val)
+                rec.write_log.append(("$v", tuple(obj.idx) + (idx,)))
+                return
         if isinstance(obj, SOpt):
             if self.st.branch(obj.isnone):
                 self.raise_builtin("TypeError", "'NoneType' object does not support item assignment")
